@@ -42,11 +42,16 @@ W_IF = {"if_nb_nb": 2, "if_nb_closed": 4, "if_nb_else_nb": 2, "if_else_closed": 
 
 
 class Gen:
-    def __init__(self, rng, max_depth=5, wild=0.12, max_stmts=6):
+    def __init__(self, rng, max_depth=5, wild=0.12, max_stmts=6, sugar=0.06):
         self.rng = rng
         self.max_depth = max_depth
         self.wild = wild
         self.max_stmts = max_stmts
+        # probability that a read index / call argument / dimension / condition is DELIBERATELY a
+        # tuple or an anonymous component (the places where the desugarer must reject the sugar it
+        # cannot remove; a traversal that skips one of them lets it through to IR lifting, whose
+        # catch-all arms panic: seeded change C01-variable-index-not-searched)
+        self.sugar = sugar
         self.counts = collections.Counter()
         self.fresh = 0
         self.templates = []   # (name, nparams, inputs, outputs, custom)
@@ -174,7 +179,7 @@ class Gen:
                 name, n = self.rng.choice(self.functions)
             else:
                 name, n = self.rng.choice(["f", "g", "nbits", "undefinedFn"]), self.rng.randrange(0, 3)
-            return (1, "%s ( %s )" % (name, " , ".join(self.at(14, self.expr(d + 1)) for _ in range(n))))
+            return (1, "%s ( %s )" % (name, " , ".join(self.hole(d, "call_arg") for _ in range(n))))
         if kind == "array":
             n = self.rng.randrange(1, 4)
             return (1, "[ %s ]" % " , ".join(self.at(14, self.expr(d + 1)) for _ in range(n)))
@@ -191,6 +196,34 @@ class Gen:
             return (0, self.hexnumber())
         return (0, "( " + self.at(14, self.expr(d + 1)) + " )")
 
+    def hole(self, d, where, leafy=False):
+        """The expression of a position named `where` (index / call_arg / dimension / condition):
+        with probability self.sugar a tuple or an anonymous component, bare or one operator deep;
+        otherwise an ordinary expression (a leaf when `leafy`). Returns text at tier 14."""
+        if self.chance(self.sugar):
+            r = self.rng.random()
+            if r < 0.4:
+                n = self.rng.randrange(2, 4)
+                sug = "( %s )" % " , ".join(self.at(14, self.expr(self.max_depth)) for _ in range(n))
+                form = "tuple"
+            elif r < 0.9:
+                sug = self.anon(self.max_depth)
+                form = "anon"
+            else:
+                sug = "parallel " + self.anon(self.max_depth)
+                form = "parallel_anon"
+            wrap = self.rng.random()
+            if wrap < 0.5 or form == "parallel_anon":
+                text = sug
+            elif wrap < 0.75:
+                text = "%s + %s" % (self.number(), sug)
+            else:
+                a = self.declared("arr")
+                text = ("%s [ %s ]" % (self.rng.choice(a), sug)) if a else ("- " + sug)
+            self.use("SugarIn:%s:%s" % (where, form))
+            return text
+        return self.at(14, self.expr(self.max_depth if leafy else d + 1))
+
     def variable(self, d, kinds=("var", "sig")):
         """ParseVariable: IDENTIFIER ParseVarAccess*"""
         r = self.rng.random()
@@ -201,12 +234,12 @@ class Gen:
             self.use("ParseVarAccess:component")
             s = c + " . " + self.rng.choice(["out", "in", "a", "b"])
             if self.chance(0.2):
-                s += " [ " + self.at(14, self.expr(d + 1)) + " ]"
+                s += " [ " + self.hole(d, "index") + " ]"
             return s
         if arrs and r < 0.4:
             a = self.rng.choice(arrs)
             self.use("ParseVarAccess:array")
-            return a + " [ " + self.at(14, self.expr(self.max_depth if d + 1 < self.max_depth and self.chance(0.7) else d + 1)) + " ]"
+            return a + " [ " + self.hole(d, "index", leafy=(d + 1 < self.max_depth and self.chance(0.7))) + " ]"
         s = self.some_name(kinds)
         if self.chance(self.wild * 0.5):
             self.use("ParseVarAccess:wild")
@@ -265,7 +298,7 @@ class Gen:
         return self.stmt1(d, kind)
 
     def cond(self, d):
-        return "( " + self.at(14, self.expr(max(d, self.max_depth - 2))) + " )"
+        return "( " + self.hole(max(d, self.max_depth - 2) - 1, "condition") + " )"
 
     def stmt0nb(self, d, kind=None):
         """ParseStmt0NB: the three `if` forms whose last branch is open"""
@@ -378,7 +411,7 @@ class Gen:
 
     def dims(self, d):
         n = self.rng.choice([0, 0, 0, 1, 1, 2])
-        return "".join(" [ %s ]" % self.at(14, self.expr(self.max_depth)) for _ in range(n)), n
+        return "".join(" [ %s ]" % self.hole(d, "dimension", leafy=True) for _ in range(n)), n
 
     def signal_header(self):
         """SignalHeader: signal ParseSignalType? ParseTagsList?"""
